@@ -142,6 +142,10 @@ def run(ctx):
                 break
         if o.get('prices_pass') is False:
             bad['gridded price arrays do not pass through unchanged'] = o.get('prices_error', True)
+        wrong = {k: v for k, v in (o.get('prices_forms') or {}).items() if v is not True}
+        if wrong and tz is None:
+            # (on a grid with a time zone a numeric index is read as time stamps by design of the tz handling: only naive grids are judged)
+            bad['gridded prices do not pass through unchanged (by the form they are held in)'] = wrong
         if bad:
             trig = {'what': sorted(bad)[0]}
             if g['freq'] in ('W', 'MS') and set(bad) <= {'first point is not the grid start'}:
